@@ -12,7 +12,7 @@ import traceback
 import z3
 
 sys.path.insert(0, os.path.dirname(os.path.dirname(os.path.abspath(__file__))))
-from mirsym import driver, interp, models, extmodels, strmodels, models2, rexmodel, winnowmodel  # noqa: E402
+from mirsym import driver, interp, models, extmodels, strmodels, models2, rexmodel, winnowmodel, asyncmodels  # noqa: E402
 from mirsym.values import *  # noqa: E402,F401
 
 VERIF = driver.VERIF
